@@ -441,6 +441,9 @@ class Exec:
             return z3.Not(v.isnone)
         if isinstance(v, VStr) and v.lit is not None:
             return z3.BoolVal(bool(v.lit))
+        if isinstance(v, VStr):
+            from .values import str_code
+            return v.t != str_code("")      # a text/path value is falsy exactly when it is the empty string
         raise Unsupported(f"truth value of {v}")
 
     # ------------------------------------------------------------------ expressions --
@@ -591,6 +594,19 @@ class Exec:
             return v
         raise Unsupported("unary op")
 
+    def cond(self, node, st):
+        """truth value of an expression used as a condition (and/or over non-boolean operands included)"""
+        if isinstance(node, ast.BoolOp):
+            self._bool_ctx = getattr(self, "_bool_ctx", 0) + 1
+            try:
+                v = self.e_BoolOp(node, st)
+            finally:
+                self._bool_ctx -= 1
+            return self.truth(st, v)
+        if isinstance(node, ast.UnaryOp) and isinstance(node.op, ast.Not):
+            return z3.Not(self.cond(node.operand, st))
+        return self.truth(st, self.eval(node, st))
+
     def e_BoolOp(self, node, st):
         # short-circuit: later operands are evaluated under the assumption of the earlier ones; facts learned
         # while evaluating an operand (callee postconditions, typing facts) are kept, guarded by that assumption
@@ -618,7 +634,7 @@ class Exec:
             guards.append(tv if isinstance(node.op, ast.And) else z3.Not(tv))
         if not self.spec or not self.binder_marks:
             st.pc += kept
-        if all(isinstance(v, VBool) for v in vals):
+        if all(isinstance(v, VBool) for v in vals) or getattr(self, "_bool_ctx", 0):
             return VBool(z3.And(*terms) if isinstance(node.op, ast.And) else z3.Or(*terms))
         # value-returning and/or (e.g. `a or b`): build an ite chain
         res = vals[-1]
@@ -654,7 +670,7 @@ class Exec:
         return v
 
     def e_IfExp(self, node, st):
-        c = self.truth(st, self.eval(node.test, st))
+        c = self.cond(node.test, st)
         cs = z3.simplify(c)
         if z3.is_true(cs):
             return self.eval(node.body, st)
@@ -920,6 +936,11 @@ class Exec:
             return VBoundMethod(base, attr)
         if isinstance(base, VModule):
             return VBuiltin(f"{base.name}.{attr}")
+        if isinstance(base, VStr) and attr == "name":
+            from . import streams
+            self.lib_used.add("Path.name: the last path component (a relative name; opening it resolves against the "
+                              "current working directory, which need not be the file's directory)")
+            return VStr(streams.pname(base.t))
         if isinstance(base, VFilePtr):
             if attr == "closed":
                 return VBool(base.closed)
